@@ -2,6 +2,7 @@
 package all
 
 import (
+	_ "verif/props/c02"
 	_ "verif/props/c08"
 	_ "verif/props/c09"
 )
